@@ -16,8 +16,12 @@ git checkout -q --detach "$(git -C /repo rev-parse HEAD)"; git checkout -q -- . 
 run_demo() {
   if [ -f $D/demo.sh ]; then
     cargo build --offline -p glaredb 2>&1 | grep -E "^error|Finished" | head -3
-    (cd $D && bash ./demo.sh $CARGO_TARGET_DIR/debug/glaredb) 2>&1 | tail -12
-    echo "demo exit: ${PIPESTATUS[0]}"
+    # scheduling-dependent demonstrations: three runs, every exit status is recorded
+    for k in 1 2 3; do
+      (cd $D && bash ./demo.sh $CARGO_TARGET_DIR/debug/glaredb) > /tmp/vv/demo.out 2>&1; rc=$?
+      [ $k = 1 ] && tail -12 /tmp/vv/demo.out
+      echo "demo exit (run $k): $rc"
+    done
   else
     git apply $D/demo.diff || echo "DEMO APPLY FAILED"
     cargo test --offline -p $CRATE --lib $FILTER 2>&1 | grep -E "^test .*(FAILED|ok)$|^test result|panicked at|error(\[|:)" | grep -v '\.\.\. ok' | head -12
@@ -31,7 +35,14 @@ git checkout -q -- . ; git clean -fdq; git apply $D/patch.diff
 echo "== $S: pinned suite with the patch"
 cargo nextest run --workspace --no-fail-fast --tool-config-file pb:/w/lib/nextest.toml --profile pb --test-threads 8 --offline > /tmp/vv/suite.log 2>&1
 J=$CARGO_TARGET_DIR/nextest/pb/junit.xml; [ -f "$J" ] || J=$W/target/nextest/pb/junit.xml
-python3 /verif/tools/baseline_cmp.py "$J"; echo "suite exit: $?"
+python3 /verif/tools/baseline_cmp.py "$J" | tee /tmp/vv/cmp.out; rc=${PIPESTATUS[0]}; echo "suite exit: $rc"
+if [ $rc -ne 0 ]; then
+  # tests that time out under machine load (300 s nextest limit) are re-run alone
+  for t in $(python3 -c "import re,sys; print(' '.join(x.split('::',1)[1] for x in re.findall(r\"'([^']+)'\", open('/tmp/vv/cmp.out').read())))"); do
+    echo "re-run alone: $t"
+    cargo nextest run --workspace --offline --no-fail-fast --tool-config-file pb:/w/lib/nextest.toml --profile pb "$t" 2>&1 | grep -E "PASS|FAIL|TIMEOUT|Summary" | tail -3
+  done
+fi
 echo "== $S: original code"
 git checkout -q -- . ; git clean -fdq
 run_demo
